@@ -203,10 +203,16 @@ def execOp (st : DState) (line : String) : DState × Option (List String) :=
     -- write-under-read-lock protocol: Proofs/C19.lean shows that for every interleaving no Send fails
     -- and every message is written exactly once
     (st, some ["res ok failed=[] missing=[] dup=[] junk=0"])
-  | ["filefault", _, _] =>
-    -- a rotation whose reopen fails: Send reports the error of the write on the closed file (Proofs/C19.lean: a Send
-    -- either writes its unit or fails; nothing is acknowledged that was not written)
-    (st, some ["res ok lostacked=0"])
+  | ["filefault", n, _] =>
+    -- n Sends, a rotation whose reopen fails, n more Sends, run through the statement-level model of the transport
+    -- (Goflow/Conc/FileTransportFaults.lean; Proofs/C19Faults.lean acked_written / failed_not_written hold for every
+    -- schedule): which Sends are acknowledged and how many acknowledged messages are in no file
+    let k := n.toNat!
+    let evs := (List.range k).flatMap Conc.FileTransportFaults.fullSend ++ Conc.FileTransportFaults.rotation false ++ ((List.range k).map (· + k)).flatMap Conc.FileTransportFaults.fullSend
+    let fin := Conc.FileTransportFaults.run Conc.FileTransportFaults.go (Conc.FileTransportFaults.init (2 * k)) evs
+    let acked := (List.range (2 * k)).filter fun i => fin.senders[i]? == some Conc.FileTransportFaults.SPc.ok
+    let lost := acked.filter fun i => !(Conc.FileTransportFaults.written fin).contains i
+    (st, some ["res ok lostacked=" ++ toString lost.length, "acked " ++ ",".intercalate ((acked.map toString))])
   | ["filestress", _, _, _, _] =>
     -- unscheduled senders and rotations: the same theorems (each Send is one write under the read lock; rotation
     -- takes the write lock) give: nothing fails, nothing is missing, duplicated or torn
